@@ -6,8 +6,11 @@ open Util
 let opt_n s = if s = "-" then None else Some (n_of_string s)
 let rec nat_of (i : int) : nat = if i <= 0 then O else S (nat_of (i - 1))
 
-let run_n ctr0 nex ops =
-  let st = ref (sess_new (n_of_string ctr0) (nat_of (int_of_string nex))) in
+let new_sess ctr0 nex = sess_new (n_of_string ctr0) (nat_of (int_of_string nex))
+let at_sess ctr nex mode = sess_at (n_of_string ctr) (nat_of (int_of_string nex)) (mode = "c")
+
+let run_n st0 ops =
+  let st = ref st0 in
   let buf = Buffer.create 256 in
   (try
     List.iter (fun op ->
@@ -19,7 +22,7 @@ let run_n ctr0 nex ops =
                st := s';
                Buffer.add_string buf (Printf.sprintf "ok:%s:%s|" (string_of_n w.w_ctr)
                  (match w.w_ack with Some a -> string_of_n a | None -> "-"))
-           | Err c -> st := s'; Buffer.add_string buf (if int_of_n c = 1 then "timeout|" else "err|")
+           | Err c -> st := s'; Buffer.add_string buf (if int_of_n c = 1 then "timeout|" else if int_of_n c = 3 then "nosess|" else "err|")
            | Panic _ -> Buffer.add_string buf "panic|"; raise Exit)
       | ["r"; e; ctr; ack; rel] ->
           let (s', r) = sess_recv !st (nat_of (int_of_string e)) (n_of_string ctr) (opt_n ack) (rel = "1") in
@@ -30,17 +33,17 @@ let run_n ctr0 nex ops =
            | Panic _ -> Buffer.add_string buf "panic|"; raise Exit)
       | _ -> failwith "bad N op") (List.filter (fun x -> x <> "") (split_on ',' ops))
   with Exit -> ());
-  Printf.sprintf "%s ctr=%s" (Buffer.contents buf) (string_of_n !st.s_ctr)
+  Printf.sprintf "%s ctr=%s exp=%d" (Buffer.contents buf) (string_of_n !st.s_ctr) (if !st.s_expired then 1 else 0)
 
 (* spec mode for N: is the trace honest (extracted predicate)?  The python side then checks
    nonce uniqueness on the IMPLEMENTATION's outputs for honest traces. *)
-let honest_n ctr0 nex ops =
+let honest_n st0 ops =
   let l = List.map (fun op ->
     match String.split_on_char ':' op with
     | ["s"; e; m; rel] -> Send (nat_of (int_of_string e), n_of_string m, rel = "1")
     | ["r"; e; ctr; ack; rel] -> Recv (nat_of (int_of_string e), n_of_string ctr, opt_n ack, rel = "1")
     | _ -> failwith "bad N op") (List.filter (fun x -> x <> "") (split_on ',' ops)) in
-  honest (sess_new (n_of_string ctr0) (nat_of (int_of_string nex))) l
+  honest st0 l
 
 let () =
   let spec_mode = Array.length Sys.argv > 1 && Sys.argv.(1) = "spec" in
@@ -49,10 +52,14 @@ let () =
       let line = input_line stdin in
       match String.split_on_char ' ' line with
       | "N" :: id :: ctr0 :: nex :: rest when spec_mode ->
-          Printf.printf "N %s %d\n" id (if honest_n ctr0 nex (match rest with o :: _ -> o | [] -> "") then 1 else 0)
+          Printf.printf "N %s %d\n" id (if honest_n (new_sess ctr0 nex) (match rest with o :: _ -> o | [] -> "") then 1 else 0)
+      | "M" :: id :: ctr :: nex :: mode :: rest when spec_mode ->
+          Printf.printf "M %s %d\n" id (if honest_n (at_sess ctr nex mode) (match rest with o :: _ -> o | [] -> "") then 1 else 0)
       | _ when spec_mode -> ()
       | "N" :: id :: ctr0 :: nex :: rest ->
-          Printf.printf "N %s %s\n" id (run_n ctr0 nex (match rest with o :: _ -> o | [] -> ""))
+          Printf.printf "N %s %s\n" id (run_n (new_sess ctr0 nex) (match rest with o :: _ -> o | [] -> ""))
+      | "M" :: id :: ctr :: nex :: mode :: rest ->
+          Printf.printf "M %s %s\n" id (run_n (at_sess ctr nex mode) (match rest with o :: _ -> o | [] -> ""))
       | "A" :: id :: cursor :: rest ->
           (* a trailing 'e' marks an expired session: its identifier is still in use *)
           let strip x = if String.length x > 0 && x.[String.length x - 1] = 'e' then String.sub x 0 (String.length x - 1) else x in
